@@ -76,7 +76,7 @@ def messages(p, level):
     for ln in range(0, 4):
         for m in itertools.product((0, 1, p - 1), repeat=ln):
             out.append(("int", m))
-    for ln in (4, 5, 8, 9) + ((12,) if level else ()):
+    for ln in (4, 5, 8, 9, 16, 17, 33) + ((12, 64, 65, 129) if level else ()):
         for pat in ((0,) * ln, (1,) * ln, tuple(i % 2 for i in range(ln))):
             out.append(("int", pat))
     for m in ((0, 1), (1, 1, 0), (1, 0, 1, 1, 0)):
@@ -179,6 +179,31 @@ def _task(t):
             ph.permute = orig
         st["compared"] += len(seen)
         return {"st": st, "viols": viols, "ncons": None}
+    elif kind == "gghlong":
+        # inputs longer than any chunk / table size: 255..257, 300, 511..513 (and 1025 thorough) bits, three patterns
+        gg = _ST["gg"]
+        n = 0
+        for ln in item:
+            for pat in ("ones", "alt", "tail"):
+                bits = [1] * ln if pat == "ones" else ([i % 2 for i in range(ln)] if pat == "alt" else [0] * (ln - 3) + [1, 0, 1])
+                want = RP.subset_sum_hash(bits, p)
+                for mode in ("plain", "secret-int", "secret-bool"):
+                    H.reset(bitlength=16)
+                    v = list(bits) if mode == "plain" else ([rt.PrivVal(b) for b in bits] if mode == "secret-int" else [H.boolean.PrivValBool(b) for b in bits])
+                    n += 1
+                    try:
+                        r = gg.ggh_hash(v)
+                    except Exception as ex:  # noqa: BLE001
+                        bad("subset-sum-raises", "ggh_hash(%s, %d bits %s) raises %s" % (mode, ln, pat, type(ex).__name__))
+                        continue
+                    got = (r.value if hasattr(r, "value") else r)
+                    if got % p != want:
+                        bad("subset-sum-differs-from-reference", "ggh_hash(%s, %d bits, pattern %s)" % (mode, ln, pat))
+                    if hasattr(r, "lc") and (H.value_wire_mismatches(r) or H.R.unsatisfied()):
+                        bad("subset-sum-invariant", "value/wire mismatch or unsatisfied constraint for %d bits" % ln)
+        st["executions"] += n
+        st["compared"] += n
+        return {"st": st, "viols": viols, "ncons": None}
     elif kind == "ggh":
         gg = _ST["gg"]
         n = 0
@@ -262,6 +287,7 @@ def run(ctx):
     for name, (mod, p) in FIELDS.items():
         tasks = [("perm", name, s) for s in states(p, level)] + [("sponge", name, m) for m in messages(p, level)]
         tasks += [("padding", name, None), ("ggh", name, 10 if ctx.thorough else 8)]
+        tasks += [("gghlong", name, (ln,)) for ln in ((255, 256, 257, 300, 513) + ((511, 512, 1025) if ctx.thorough else ()))]
         random.Random(ctx.seed).shuffle(tasks)
         results = common.pool_map(_task, tasks, init=_init, initargs=(name,))
         for r in results:
@@ -305,7 +331,7 @@ def run(ctx):
                        "non-zero entries (+ the published input), sponge on ALL messages of length 0..3 over {0,1,p-1} and "
                        "lengths 4,5,8,9(,12) over three bit patterns, boolean- and fixed-point-typed inputs; padding on ALL "
                        "messages of length <= 9 over {0,1} through the real padding code; subset-sum hash on all bit vectors of "
-                       "length <= 8 (10 thorough) x plain / integer-typed / boolean-typed / mixed; parameter selection in %d "
+                       "length <= 8 (10 thorough) x plain / integer-typed / boolean-typed / mixed, and on inputs of 255..257, 300, 513 (thorough 511, 512, 1025) bits in three patterns; parameter selection in %d "
                        "fresh interpreters; a sub-family of the permutation / sponge / subset-sum instances again on the REAL "
                        "zkinterface backend modules of the three fields (FlatBuffers builder shim)" % len(sel))
     ctx.sample({"field": "zkifbellman", "permute": [0, 1, 2, 3, 4], "expect": "published x5_255_5 vector"})
